@@ -477,6 +477,28 @@ func c38Gen(r *rand.Rand, tier string, i int) any {
 			in.Settings = append(in.Settings, c38Setting{V1Key: f.v1key, Val: v, Class: class})
 		}
 	}
+	// most files carry at least one free-text setting whose value needs escaping when written into YAML
+	if r.Intn(10) < 7 {
+		var free []c38Field
+		have := map[string]bool{}
+		for _, st := range in.Settings {
+			have[st.V1Key] = true
+		}
+		for _, f := range c38Fields {
+			if f.typ == "string" && len(f.choices) == 0 && !f.curated && !have[f.v1key] {
+				free = append(free, f)
+			}
+		}
+		if len(free) > 0 {
+			f := free[r.Intn(len(free))]
+			hard := []string{`back\\slash`, `C:\\dir\\name`, `both " and '`, `\\"mix'`, `end\\`, "line1\nline2", "tab\there", `it's "quoted"`}
+			v := hard[r.Intn(len(hard))] + strconv.Itoa(r.Intn(9))
+			if r.Intn(3) == 0 {
+				v = c38Special(r)
+			}
+			in.Settings = append(in.Settings, c38Setting{V1Key: f.v1key, Val: fmt.Sprintf("%q", v), Class: "N"})
+		}
+	}
 	if r.Intn(10) < 7 { // nearly every v1 file has it; deprecated in v2
 		in.Settings = append(in.Settings, c38Setting{V1Key: "InMemCollector.CacheCapacity", Val: strconv.Itoa(1000 + r.Intn(9000))})
 	}
